@@ -429,7 +429,7 @@ theorem readParts_writeParts (b : Bytes) (hb : BoundaryOk b) (ps : List WPart) (
       have : ∀ qs : List WPart, 2 * qs.length + 2 ≤ (writeRest b qs).length := by
         intro qs
         induction qs with
-        | nil => simp [writeRest, crlf, dashDash]; omega
+        | nil => simp [writeRest, crlf, dashDash]
         | cons q qs ih => simp [writeRest, crlf, dashDash] at ih ⊢; omega
       have := this ps
       simp [writeParts]; omega
